@@ -62,11 +62,13 @@ type Disk struct {
 	root  string // only files under this directory are tracked
 	files map[string]*diskFile
 	// Decide is consulted before every mutating operation on a tracked file.
-	Decide     func(kind string, path string, n int) DiskDecision
-	dead       bool // after a crash: every operation fails, nothing reaches the file
-	writeLocks int
-	Ops        int
-	Counts     map[string]int
+	Decide       func(kind string, path string, n int) DiskDecision
+	dead         bool // after a crash: every operation fails, nothing reaches the file
+	writeLocks   int
+	busy         bool // another process holds the write lock (injected)
+	BusyRefusals int
+	Ops          int
+	Counts       map[string]int
 }
 
 var (
@@ -123,6 +125,7 @@ func InstallSimDisk() error {
 		v.FxDelete = cfn(vfsDelete)
 		v.FxAccess = cfn(vfsAccess)
 		v.FxFullPathname = cfn(vfsFullPathname)
+		v.FxSleep = cfn(vfsSleep)
 
 		msz := unsafe.Sizeof(sqlite3.Tsqlite3_io_methods{})
 		ioMethods = libc.Xcalloc(tls, 1, libc.Tsize_t(msz))
@@ -224,6 +227,17 @@ func (d *Disk) Kill() {
 	d.dead = true
 	d.mu.Unlock()
 }
+
+// SetBusy switches injected write-lock contention on or off.
+func (d *Disk) SetBusy(b bool) {
+	d.mu.Lock()
+	d.busy = b
+	d.mu.Unlock()
+}
+
+// vfsSleep: SQLite's busy handler waits through the VFS; simulated waits cost no
+// real time (the handler's budget is counted in the delays it asks for).
+func vfsSleep(tls *libc.TLS, pVfs uintptr, micro int32) int32 { return micro }
 
 // WriteLocked: some connection on a file of this disk is inside a write
 // transaction (holds the WAL write lock).
@@ -510,6 +524,24 @@ func ioShmMap(tls *libc.TLS, pFile uintptr, iPg int32, pgsz int32, ext int32, pp
 }
 
 func ioShmLock(tls *libc.TLS, pFile uintptr, offset int32, n int32, flags int32) int32 {
+	// Injected lock contention: another process holds the WAL write lock, every
+	// request for it is refused with SQLITE_BUSY (the busy handler then retries
+	// through the VFS sleep, which does not sleep, until its budget is spent).
+	if offset == 0 && n >= 1 && flags&8 != 0 && flags&2 != 0 {
+		if v, ok := openFiles.Load(pFile); ok {
+			if of := v.(*openFile); of.disk != nil {
+				of.disk.mu.Lock()
+				busy := of.disk.busy
+				if busy {
+					of.disk.BusyRefusals++
+				}
+				of.disk.mu.Unlock()
+				if busy {
+					return 5 // SQLITE_BUSY
+				}
+			}
+		}
+	}
 	rc := call[func(*libc.TLS, uintptr, int32, int32, int32) int32](origMethods(pFile).FxShmLock)(tls, origFile(pFile), offset, n, flags)
 	// WAL write lock = slot 0 of the shared-memory lock table, taken exclusively
 	// for the duration of a write transaction (SQLITE_SHM_UNLOCK 1, _LOCK 2,
